@@ -328,16 +328,10 @@ func (m *Model) apply(e string) (res string, direct [32]byte, node string) {
 		return res, msg.Item(), msg.To
 	case "K":
 		i, _ := strconv.Atoi(p[1])
-		n := 0
-		for _, tk := range vsched.Tickers() {
-			if tk.D.Seconds() == 2 && !tk.Stopped {
-				if n == i {
-					tk.Fire()
-					vsched.Settle()
-					return "fired", direct, ""
-				}
-				n++
-			}
+		if tk := m.full[i].RetryTicker; tk != nil && !tk.Stopped {
+			tk.Fire()
+			vsched.Settle()
+			return "fired", direct, ""
 		}
 		return "no-ticker", direct, ""
 	case "I":
